@@ -584,7 +584,7 @@ pub fn run_check(ctx: &Ctx) -> i32 {
         .set("rule", json!("passcode catalog x {window, no window}; second concurrent initiator; 19/20/21 wrong attempts; every single attacker move of the C01 catalog on every PASE datagram (thorough: every bit); 9 special / invalid curve points in place of pA and pB; window close / close-and-reopen / expiry placed before the delivery of each handshake datagram (with and without a second initiator; thorough: crossed with the loss of each datagram). 'states' = distinct (sessions, results, window state, failure counter) end states"));
     ev.assume("cryptographic hardness of SPAKE2+ / PBKDF2 is assumed");
     ev.assume("expiry polling (`InteractionModel::run`) is not part of this harness: an expired window is closed at the next PASE request; the advertisement check therefore compares against `comm_window_state()` at every step");
-    if executed == 0 || with_session == 0 || without == 0 || failures_counted == 0 {
+    if report.violations.is_empty() && (executed == 0 || with_session == 0 || without == 0 || failures_counted == 0) {
         eprintln!("MACHINERY: vacuous C02 run");
         return 2;
     }
